@@ -155,6 +155,11 @@ def family(ctx):
             imgs += tr if full else tr[::3]
         if im.fmt != 'vhdx' or full:
             imgs += F.extensions(im, seed)[: 3 if full else 1]
+        # longer than the decision horizon of every other inspector (vhdx: 256 KiB), so that the
+        # wrapper reports a decision while this format's inspector still has bytes to count
+        if im.fmt in ('luks', 'qcow2', 'vhd', 'vdi', 'gpt', 'qed') and len(im.data) < 300 * 1024:
+            imgs.append(im.derive(im.data + B.filler(seed, 300 * 1024 - len(im.data), 3),
+                                  '%s+to300k' % im.name))
     imgs += vhdx_variants(seed, full)
     imgs += vmdk_variants(seed, full)
     imgs += F.polyglots(seed)
@@ -214,7 +219,10 @@ def cuts_for(S, system, im, seed, maxn):
     bounds = [b for b in im.bounds if 0 < b < L]
     if system.kind == 'wrapper':
         own = sorted(WRAP_BASE)
-        mine = [4, 64, 512, 592]
+        # the decision horizons of the other inspectors (iso 34816, vhdx 262144) and one point
+        # between the last horizon and the end: a decision exists there while bytes still arrive
+        mine = [4, 64, 512, 592] + [x for x in (262144, (262144 + L) // 2, 34816, 196608)
+                                    if 0 < x < L and (x != (262144 + L) // 2 or L > 262146)]
     else:
         mine = INSPECTOR_POINTS.get(system.name, [])
         own = []
@@ -261,6 +269,20 @@ def _explore_one(job):
     # chunk presentation: the same cuts (thinned) with a re-used bytearray / with
     # memoryview slices of a re-used read buffer must give the same verdict and
     # leave exactly the stream's bytes in every region
+    # I9: the explorer asks every question in every state; a caller who only feeds the same
+    # chunks and asks at the end must be told the same
+    out['unobserved'] = None
+    if len(r.verdicts) == 1:
+        (v0, p0), = r.verdicts.items()
+        try:
+            _o, tr = S.replay_path(system, data, list(p0), queries=False, observe=False)
+            last = tr[-1] if tr else {}
+            vq = last.get('verdict', ('error', last.get('raised')))
+        except Exception as e:
+            vq = ('error', type(e).__name__)
+        v0n = ('error', v0[1]) if isinstance(v0, tuple) and v0 and v0[0] in ('error', 'finish-error') else v0
+        if repr(vq) != repr(v0n):
+            out['unobserved'] = {'path': list(p0), 'explored': repr(v0), 'unobserved': repr(vq)}
     out['typed'] = []
     if mode == 'cand' and len(r.verdicts) == 1 and len(data) > 0 and sysname != 'wrapper-short':
         (v0, _p), = r.verdicts.items()
@@ -608,12 +630,26 @@ def run(ctx):
         sigs = findings.c01_signatures(im.data, 'wrapper' if r['system'] == 'wrapper-short' else r['system'])
         base = {'image': pack(im.data), 'image_name': im.name,
                 'system': r['system']}
+        others = [f for f in r['failures'] if not f['inv'].startswith('I4')] or r.get('unobserved') \
+            or len(r['verdicts']) > 1
         for f in r['failures']:
+            if f['inv'].startswith('I4') and not others:
+                # a query that changes hidden state (a cache) without any consequence for a
+                # verdict is not a violation of the property: counted, not reported
+                rep.count('queries_that_changed_hidden_state_without_consequence')
+                continue
             rep.fail('%s:%s:%s' % (f['inv'], r['system'], im.fmt),
                      {'image': im.name, 'system': r['system'], 'path': f['path'][-6:],
                       'detail': f['detail']},
                      dict(base, kind=f['inv'], paths=[f['path']]),
                      sigs=[] if f['inv'].startswith('I1') else sigs)
+        rep.count('unobserved_runs')
+        if r.get('unobserved'):
+            u = r['unobserved']
+            rep.fail('I9-verdict-depends-on-intermediate-queries:%s:%s' % (r['system'], im.fmt),
+                     {'image': im.name, 'system': r['system'], 'path': u['path'][-6:],
+                      'asked_in_every_state': u['explored'], 'asked_only_at_the_end': u['unobserved']},
+                     dict(base, kind='I9', paths=[u['path']]), sigs=sigs)
         for t in r.get('typed', []):
             rep.count('typed_runs')
             rep.count('traces_validated_against_impl')
@@ -732,8 +768,17 @@ def replay(payload):
         system = S.make_system(payload['system'])
     obs = []
     bad_regions = impure = revised = False
+    if payload.get('kind') == 'I9':
+        ends = []
+        for q in (True, False):
+            obj, trace = S.replay_path(system, data, payload['paths'][0], queries=q, observe=q)
+            last = trace[-1] if trace else {}
+            ends.append(repr(last.get('verdict', last.get('raised'))))
+        return {'violates': ends[0] != ends[1], 'with_intermediate_queries': ends[0],
+                'without': ends[1]}
+    quiet = str(payload.get('kind', '')).startswith('I4')
     for path in payload['paths']:
-        obj, trace = S.replay_path(system, data, path, queries=True)
+        obj, trace = S.replay_path(system, data, path, queries=not quiet, observe=not quiet)
         last = trace[-1] if trace else {}
         pos = max([x for x in path if isinstance(x, int)] or [0])
         for i in system.inspectors(obj):
